@@ -373,8 +373,11 @@ let handle (fields : string list) : string * string =
         | ["valid"; sub] -> (match tok with JCompact (_, _, c) when c.cl_at = at -> Some (bytes_of_hex sub) | _ -> None)
         | _ -> None) in
     let (res, q) = Model.check_paa (key_of_name "S") (z_of_int (int_of_string now)) idpf tok in
+    (* "consulted" as the harness observes it is a request arriving at the provider: the OAuth2 client refuses to
+       send an empty access token, so for such a token no request is seen (same adjustment in Spec/Show.v) *)
+    let at_empty = (match tok with JCompact (_, _, c) -> c.cl_at = [] | _ -> false) in
     let m = (match res with
-        | PaaReject -> "rej:" ^ b01 q
+        | PaaReject -> "rej:" ^ b01 (q && not at_empty)
         | PaaAccept (h, i, u) -> Printf.sprintf "acc:%s:%s:%s:%s" (hex_of_bytes h) (hex_of_bytes i) (hex_of_bytes u) (b01 q)) in
     (* the specification evaluated on the independently decoded term is the oracle *)
     (m, if m = impl then "ok"
